@@ -15,7 +15,12 @@ TECHNIQUE = ('interface agreement (arity, name-aligned argument order, directive
              'signatures read from the utility catalogue; propositional enumeration of the Python guard expressions that compute the flags; '
              'path enumeration of the C fast-path helpers per preprocessor configuration and flag value with an index-status domain '
              '(raw / length-added / bounds-tested), used in both directions (length added at least once before a non-wrapping accessor, at most once before a '
-             'wrapping consumer); decision table of the bound normalisation in ConstantFolding.visit_SliceIndexNode over the complete partition of bound values, folded on model nodes')
+             'wrapping consumer); decision table of the bound normalisation in ConstantFolding.visit_SliceIndexNode over the complete partition of bound values, folded on model nodes; '
+             'fourth round: abstract interpretation of the fast paths on sets of linear forms over IDX and LEN (C15-AMOUNT); truth tables of the two bounds predicates with C conversion '
+             'rules over every integer width / signedness and the boundary classes relative to the limit (C15-VALID); symbolic execution of the C slice helpers on linear forms over the '
+             'complete class partition of both bounds relative to the length, emptiness test forked (C15-CLAMP); role agreement over assignments and their guards (C15-SLICEOBJ); '
+             'type-test / helper-name agreement with path conditions (C15-KIND); reference table of the default bounds (C15-DEFAULT); exception class of the out-of-range alternative '
+             '(C15-RANGE); folding of the emitted byte range test on model nodes and evaluation on the boundary values of each value type (C15-BYTE)')
 DECIDES = ('(ARITY) every helper name IndexNode emits receives explicit arguments + the flag tuple of extra_index_params exactly when it is an '
            'integer-index helper, and that count equals the C parameter count; '
            '(FLAGS) the flag tuple has one format item per element, all integer-index macros agree on the trailing parameter names, each tuple element '
@@ -37,9 +42,24 @@ DECIDES = ('(ARITY) every helper name IndexNode emits receives explicit argument
            'the length is never added twice; '
            '(BOUND) ConstantFolding.visit_SliceIndexNode turns a slice bound into "no bound" only for bound values where x[a:b] on a builtin sequence cannot change '
            '(absent, constant None; for the start also integer 0 / False): tabulated for both bounds over absent / None / 0 / False / 1 / True / -1 / other positive / other negative / '
-           'falsy and truthy non-integer constants / not a constant / constant not computed, in all combinations.')
-NOT_DECIDED = ('index arithmetic itself (that the added amount is the length, clamping in __Pyx_crop_slice / __Pyx_PyUnicode_Substring, overflow of '
-               'i + size); the cutting of constant sequences/strings by constant bounds in visit_SliceIndexNode (only the bound normalisation is tabulated, on a non-constant base); the generic object-protocol fallbacks; helpers whose body uses goto/loops (the slice helper) are only checked at their interface; '
+           'falsy and truthy non-integer constants / not a constant / constant not computed, in all combinations; the item list of a constant sequence is cut only when it carries no multiplier. '
+           '(AMOUNT) in every flag-taking fast path, every helper that receives the index by address and every bounds-testing accessor macro they use: an assignment that writes the index (or a '
+           'variable whose new value is IDX + something) adds exactly 0 or the length of the indexed container (a size accessor applied to the container parameter, through locals and '
+           'flag-decided conditionals), and every <, <=, >, >= / __Pyx_is_valid_index comparison of such a value is against a constant or that same length; '
+           '(VALID) __Pyx_is_valid_index(i, limit) <=> 0 <= i < limit for i in {MIN, MIN+1, -limit-1, -limit, -2, -1, 0, 1, limit-2, limit-1, limit, limit+1, MAX-1, MAX} and limit in {0, 1, 2, 7, MAX}; '
+           '__Pyx_fits_Py_ssize_t(v, type, is_signed) <=> PY_SSIZE_T_MIN <= v <= PY_SSIZE_T_MAX for signed/unsigned types of 8, 16, 32, 64 and 128 bits and v at the type limits and around both '
+           'Py_ssize_t limits; (CLAMP) for __Pyx_PyUnicode_Substring and __Pyx_crop_slice (found as: reachable from the helpers SliceIndexNode emits, assigning their start/stop): for every pair of '
+           'classes of start and stop relative to the length (11 x 11, symbolic length >= 4 and lengths 0..3) the normalised bounds at the point of use equal PySlice_AdjustIndices (start may stay '
+           'above the length and stop below 0 only where that makes the slice empty), a constant result is returned only where the Python slice can be empty, the whole object only for [0:len], '
+           'a result is built only behind a start/stop comparison where the slice can be empty, the stored length is stop - start, and the callers read the normalised start and length; '
+           '(SLICEOBJ) in both instantiations of the SliceObject helper an assignment to a start/stop variable reads only values of the same bound and stands only under tests of flags/pointers of the '
+           'same bound, PySlice_New receives (start, stop); (KIND) in IndexNode / SliceIndexNode a helper whose name carries List / Tuple / Bytes / ByteArray / Unicode / Dict is selected under a test '
+           'of the indexed object for that type, and not on the branch where that type is excluded unless the helper tests the type itself; (DEFAULT) absent / run-time None bounds stand for 0 (start) '
+           'and PY_SSIZE_T_MAX (stop); (RANGE) every integer-index macro guards its fast path with __Pyx_fits_Py_ssize_t(index, type, is_signed) and raises nothing but IndexError for an index '
+           'outside the Py_ssize_t range; (BYTE) the range test emitted for `bytearray[i] = v` is true exactly for the values outside 0..255 that the C type of v can hold.')
+NOT_DECIDED = ('overflow of i + size; the construction of the result object from the normalised slice bounds (pointer arithmetic in units of the character width in __Pyx_PyUnicode_Substring, '
+               'the item copy loops of __Pyx_Py{List,Tuple}_FromArray and their `n <= 0` guards - mutants substring-kind-offset, fromarray-copy-short); '
+               'the cutting of constant strings by constant bounds (as_sliced_node) in visit_SliceIndexNode; the generic object-protocol fallbacks; helpers whose body uses goto/loops are only checked at their interface; '
                'the DESIGN clause "dominance in the non-templated _Fast functions" is implemented for the templated List/Tuple variants as well by expanding the template.')
 ASSUMPTIONS = ['the classification of element accessors into unchecked / checked-but-not-wrapping / wrapping (pC15.RAW_ACCESSORS etc.) follows the CPython C-API documentation',
                'flag arguments are compile-time 0/1 constants (they are emitted with %d from Python bools)']
@@ -108,6 +128,24 @@ MUTATIONS = [
     ('Cython/Utility/StringTools.c', '__Pyx_GetItemInt_Unicode_Fast: `if (wraparound & unlikely(i < 0)) i += length;` -> `if (wraparound && i < 0) { i += length; }`', None),
     ('Cython/Utility/StringTools.c', '__Pyx_GetItemInt_Bytes_Fast: `if (boundscheck)` -> `if (boundscheck != 0)`, `unlikely(!X)` -> `!likely(X)`', None),
     ('Cython/Compiler/ExprNodes.py', 'get_slice_config: stop block before start block; analyse_as_pyobject: swap two conjuncts of the is_temp guard', None),
+]
+
+# fourth round (mutation brainstorming, mutants/C15/*): 37 breaking edits over the fast item access helpers, the two bounds predicates, the slice helpers, SliceObject, IndexNode /
+# SliceIndexNode and ConstantFolding; 4 were reported before (GUARD, FWD, BOUND), 35 now; 2 declined (see NOT_DECIDED).  15 behaviour-preserving rewrites: all silent after
+# IndexNode's helper selection through a conditional expression was understood by the emission model (it used to end in ANALYSIS-ERROR: C15-FWD below its floor).
+MUTATIONS += [
+    ('Cython/Utility/ObjectHandling.c', '__Pyx_GetItemInt_wraparound `*i = l`; `wrapped_i -= size`; i + PyList_GET_SIZE(v)', 'C15-AMOUNT <function>:amount:<variable>'),
+    ('Cython/Utility/StringTools.c', '`i += length - 1`; __Pyx_is_valid_index(i, i + 1)', 'C15-AMOUNT amount / limit'),
+    ('Cython/Utility/ModuleSetupCode.c', '__Pyx_PyList_GetItemRef: limit PyList_GET_SIZE(o) + 1', 'C15-AMOUNT __Pyx_PyList_GetItemRef:limit'),
+    ('Cython/Utility/TypeConversion.c', '__Pyx_is_valid_index `<=` / signed compare; __Pyx_fits_Py_ssize_t without the unsigned / lower-bound test', 'C15-VALID'),
+    ('Cython/Utility/StringTools.c', '__Pyx_PyUnicode_Substring: start clamp / stop wrap dropped, `start == 0` shortcut', 'C15-CLAMP'),
+    ('Cython/Utility/ObjectHandling.c', '__Pyx_crop_slice: stop clamp dropped, start clamped to 1, length + 1; __Pyx_PyTuple_GetSlice: `+ start` dropped', 'C15-CLAMP'),
+    ('Cython/Utility/ObjectHandling.c', 'SliceObject: PyLong_FromSsize_t(cstart) for the stop, `if (has_cstart)` for the stop, PySlice_New(py_stop, py_start, ..)', 'C15-SLICEOBJ'),
+    ('Cython/Utility/ObjectHandling.c', '__Pyx_GetItemInt_List: OverflowError; StringTools.c: __Pyx_SetStringIndexingError raises ValueError', 'C15-RANGE'),
+    ('Cython/Compiler/ExprNodes.py', 'List/Tuple helpers exchanged in generate_result_code / calculate_result_code / SliceIndexNode; ByteArray setter on the non-bytearray branch', 'C15-KIND'),
+    ('Cython/Compiler/ExprNodes.py', "stop_code -> '-1', start_code -> '1', allow_none(self.stop, '0')", 'C15-DEFAULT'),
+    ('Cython/Compiler/ExprNodes.py', "_check_byte_value: '%s > 256'", 'C15-BYTE'),
+    ('Cython/Compiler/Optimize.py', 'visit_SliceIndexNode: `base.mult_factor is None` dropped', 'C15-BOUND constant-sequence:multiplier'),
 ]
 
 EX = 'Cython/Compiler/ExprNodes.py'
@@ -219,12 +257,22 @@ class Model:
         helpers = {}
         if isinstance(fexpr, ast.Name):
             for n in walk_no_nested(fn):
-                if isinstance(n, ast.Assign) and any(isinstance(tg, ast.Name) and tg.id == fexpr.id for tg in n.targets) \
-                        and isinstance(n.value, ast.Constant) and isinstance(n.value.value, str):
-                    helpers.setdefault(n.value.value, []).append(self._intness(fn, n))
+                if isinstance(n, ast.Assign) and any(isinstance(tg, ast.Name) and tg.id == fexpr.id for tg in n.targets):
+                    for c in self._const_choices(n.value):
+                        helpers.setdefault(c, []).append(self._intness(fn, n))
         for nm in names:
             helpers.setdefault(nm, [None])
         return dict(method=mname, fn=fn, node=node, explicit=len(args), helpers=helpers, text=text)
+
+    @staticmethod
+    def _const_choices(v):
+        """string constants an assigned value can take: a constant, or a (nested) conditional expression of constants"""
+        if isinstance(v, ast.Constant) and isinstance(v.value, str):
+            return [v.value]
+        if isinstance(v, ast.IfExp):
+            a, b = Model._const_choices(v.body), Model._const_choices(v.orelse)
+            return a + b if a and b else []
+        return []
 
     @staticmethod
     def _intness(fn, stmt):
@@ -817,5 +865,10 @@ def run(ctx):
     M = Model(ctx)
     F = Family(ctx, M)
     ra = rule_arity(ctx, M)
+    emitted = set()
+    for fn in _methods(_cls(M.tree, 'SliceIndexNode')).values():
+        for _, names, _, _ in _emitted_calls(fn):
+            emitted |= set(names)
     return [ra, rule_flags(ctx, M, ra), rule_forward(ctx, M, F), rule_guard(ctx, M, F), rule_slice(ctx, M), rule_raw(ctx, M),
-            S.rule_once(ctx, F), S.rule_bound(ctx)]
+            S.rule_once(ctx, F), S.rule_bound(ctx),
+            S.rule_amount(ctx, F), S.rule_valid(ctx), S.rule_clamp(ctx, emitted), S.rule_sliceobj(ctx), S.rule_kind(ctx), S.rule_default(ctx), S.rule_range(ctx, F), S.rule_byte(ctx)]
